@@ -193,3 +193,27 @@ def bc_switch(w, h, d, bc1, bc2, i):
             if any(sp.are_neighbors(k, j) != spec_neighbors(w, h, d, bc2, k, j) for j in range(n) if j != k):
                 return False
     return True
+
+
+def grid_kinetics_ref(w, h, d, bc, i):
+    """the Python rate of change on the grid equals the law summed over the SIX directions of the specification neighbour relation
+    (a periodic axis of length 2 gives the same neighbour in both directions: two contacts, twice the flux)"""
+    from strengths import kinetics
+    from vt.oracle import grid_neighbor
+    key = ("kref", w, h, d, bc)
+    if key not in _GG:
+        _GG[key] = RDSystem(RDNetwork(species=[Species("A", D=1.5, density=0)], reactions=[]), grid(w, h, d, bc))
+    s1 = _GG[key]
+    n = w * h * d
+    x = [0.0] * n
+    x[i] = 1000.0
+    s1.state = list(x)
+    got = [float(v) for v in kinetics.compute_dstatedt(s1).value]
+    k = 1.5 / 4.0            # D / h^2 with h = 2 (cell volume 8)
+    want = [0.0] * n
+    for c in range(n):
+        for dr in range(6):
+            nb = grid_neighbor(s1.space, c, dr)
+            if nb is not None:
+                want[c] += k * (x[nb] - x[c])
+    return all(abs(a - b) <= 1e-9 * (1 + abs(b)) for a, b in zip(got, want))
